@@ -553,6 +553,7 @@ def main():
             model_diff.append(({"idx": o["idx"], "ai": -1, "line": e["line"], "meta": {"n": e["nops"]}, "pipeline": True}, d))
     # ---- (e) scheduled operation -> NpuOperation (Model/NpuOpBuild.lean, Spec/NpuOpBuild.lean) -----------------
     hl_tot = hl2npu.judge(ck, outs)
+    hl_tot.update(hl2npu.float_stage(ck, 40000 if ck.thorough else 3000))
     # ---- (d) malformed stream ---------------------------------------------------------------------
     mal = shard(malformed_batch, n_mal)
     mouts = ck.model([m["line"] for m in mal]) if mal else []
@@ -622,7 +623,7 @@ def main():
     for m, ans in list(zip(mal, mouts))[:2]:
         ck.sample({"defect": m["defect"], "generator": m["real"], "model": ans})
     ck.finish({
-        "evaluations": len(lines) + len(plines) + len(mal),
+        "evaluations": len(lines) + len(plines) + len(mal) + hl_tot["hl2npu_operations"] + hl_tot["hl2npu_float_ops"],
         "distinct_nontrivial": nontrivial,
         "rule": "case = one operation list (random legal list, or the NpuOperation list of one compiled network's stream) through the real "
                 "generator and the Lean decoder/comparator; non-trivial when >= 1 register write was elided; lists are distinct by "
